@@ -1523,6 +1523,11 @@ func sameSlice(a, b []int) bool {
 	return true
 }
 
+// structuralOnly (-structural): report only what the structural properties (C05, C06, C10) speak
+// about -- CheckInvariants, membership in the graph, NumNodes()==0 after the last Unobserve,
+// engine panics and spurious pass errors -- and leave value differences to the checks of C01/C11/C14/C15.
+var structuralOnly bool
+
 // run replays the steps on a fresh graph and a fresh reference; nil if they agree throughout
 func run(p *prog, steps []step) (f *failure, st stats) {
 	at := -1
@@ -1587,7 +1592,7 @@ func run(p *prog, steps []step) (f *failure, st stats) {
 			// values are values: what a node handed out after an earlier pass (and a dependent
 			// or the caller may have kept) must not be written again
 			for _, h := range retained {
-				if !sameSlice(h.got, h.copy) {
+				if !structuralOnly && !sameSlice(h.got, h.copy) {
 					d := p.defs[h.id]
 					return &failure{key: "kinds:" + d.Kind + ":handed-out-value-mutated", kind: d.Kind, step: i, node: h.id,
 						exp: fmt.Sprint(h.copy), got: fmt.Sprint(h.got),
@@ -1656,6 +1661,9 @@ func compare(w *world, r *ref, stepIndex int, st *stats) *failure {
 		}
 		st.compared++
 		n := r.n[id]
+		if structuralOnly {
+			continue
+		}
 		if d.Slice {
 			if got := w.slices[id].Value(); !sameSlice(got, n.s) {
 				return &failure{key: "kinds:" + d.Kind + ":value", kind: d.Kind, step: stepIndex, node: id, exp: fmt.Sprint(n.s), got: fmt.Sprint(got)}
@@ -1672,7 +1680,7 @@ func compare(w *world, r *ref, stepIndex int, st *stats) *failure {
 		}
 	}
 	for root, o := range w.obs {
-		if got := o.Value(); got != r.n[root].v {
+		if got := o.Value(); !structuralOnly && got != r.n[root].v {
 			return &failure{key: "kinds:observer:value", kind: "observer", step: stepIndex, node: root, exp: fmt.Sprint(r.n[root].v), got: fmt.Sprint(got)}
 		}
 	}
@@ -1735,10 +1743,12 @@ func main() {
 		n       = flag.Int("n", 300, "programs (one history each)")
 		jsonOut = flag.String("json", "", "report file")
 		claim   = flag.String("claim", "C01", "property the violations are reported for")
+		structF = flag.Bool("structural", false, "report only structural findings (invariants, membership, drain, panics, spurious errors)")
 		only    = flag.Int("history", -1, "run only the history with this index, and print it")
 		verbose = flag.Bool("v", false, "print the violations")
 	)
 	flag.Parse()
+	structuralOnly = *structF
 	rep := hx.NewReport("kindtrace", *seed)
 	rng := hx.NewRand(*seed)
 	perKey := map[string]int{}
